@@ -28,6 +28,7 @@ def showAns : Ans → String
   | .okBytes bs => "ok " ++ hexOfBytes bs
   | .okAddrBytes a bs => s!"ok addr={a} " ++ hexOfBytes bs
   | .err e => "err " ++ showErr e
+  | .errAddr e a moved => s!"err {showErr e} addr={a} moved={if moved then 1 else 0}"
   | .panic => "panic"
   | .dead => "dead"
   | .skipped => "skipped"
